@@ -2,6 +2,7 @@ package rules
 
 import (
 	"fmt"
+	"go/token"
 	"go/types"
 	"strings"
 
@@ -66,6 +67,113 @@ type pairingSpec struct {
 	isAcquire      func(c ssa.CallInstruction) bool
 	isRelease      func(c ssa.CallInstruction) bool
 	allowedBetween func(c ssa.CallInstruction) bool
+	// wrappers: functions that perform the acquire on behalf of their callers (see
+	// acquireWrapperParam) mapped to the index of the parameter holding the limiter. A call of
+	// a wrapper is an acquire on the argument bound to that parameter; the acquire inside the
+	// wrapper is paired at the wrapper's call sites.
+	wrappers map[*ssa.Function]int
+}
+
+// acquireSite interprets call as an acquire: a direct one (receiver, result) or a call of an
+// acquire wrapper (the argument bound to the limiter parameter, the wrapper's result).
+func (sp pairingSpec) acquireSite(call ssa.CallInstruction) (recv, val ssa.Value, ok bool) {
+	if sp.isAcquire(call) {
+		return eng.Receiver(call), eng.ResultValue(call), true
+	}
+	if f := call.Common().StaticCallee(); f != nil {
+		if k, isW := sp.wrappers[f]; isW && k < len(call.Common().Args) {
+			return call.Common().Args[k], eng.ResultValue(call), true
+		}
+	}
+	return nil, nil, false
+}
+
+// acquireWrapperParam decides whether fn is an acquire wrapper — "admit the request or answer
+// it": a function with a single boolean result that acquires exactly once, from one of its
+// own parameters, never releases, and reports faithfully: it returns true only when the
+// acquire succeeded and false only when it did not (or was not attempted); between a
+// successful acquire and the return only allow-listed calls run. It returns the index of the
+// limiter parameter.
+func acquireWrapperParam(fn *ssa.Function, sp pairingSpec) (int, bool) {
+	if fn == nil || fn.Blocks == nil || fn.Signature.Results().Len() != 1 || len(fn.AnonFuncs) > 0 {
+		return 0, false
+	}
+	if b, ok := fn.Signature.Results().At(0).Type().Underlying().(*types.Basic); !ok || b.Kind() != types.Bool {
+		return 0, false
+	}
+	var acq ssa.CallInstruction
+	for _, ci := range eng.Calls(fn) {
+		if sp.isRelease(ci) {
+			return 0, false
+		}
+		if sp.isAcquire(ci) {
+			if acq != nil {
+				return 0, false
+			}
+			acq = ci
+		}
+	}
+	if acq == nil {
+		return 0, false
+	}
+	if _, plain := acq.(*ssa.Call); !plain || eng.InLoop(acq.Block()) {
+		return 0, false
+	}
+	k := -1
+	for i, p := range fn.Params {
+		if eng.Receiver(acq) == ssa.Value(p) {
+			k = i
+		}
+	}
+	val := eng.ResultValue(acq)
+	if k < 0 || val == nil {
+		return 0, false
+	}
+	isVal := func(v ssa.Value) bool { return v == val }
+	faithful := true
+	n := 0
+	eng.Instrs(fn, func(ins ssa.Instruction) {
+		r, ok := ins.(*ssa.Return)
+		if !ok || r.Block() == fn.Recover {
+			return
+		}
+		res := eng.ReturnResults(r)
+		if len(res) != 1 {
+			faithful = false
+			return
+		}
+		n++
+		v := res[0]
+		switch {
+		case v == val:
+			// the acquire's own answer
+		case eng.IsBoolConst(v, true):
+			if !eng.GuardedByBool(r, isVal, true) {
+				faithful = false
+			}
+		case eng.IsBoolConst(v, false):
+			// this return is not reachable once the acquire was attempted
+			notAttempted := eng.ReachAfter(acq.(*ssa.Call), eng.PathQuery{Target: func(i ssa.Instruction) bool { return i == ssa.Instruction(r) }}) == nil
+			if !eng.GuardedByBool(r, isVal, false) && !notAttempted {
+				faithful = false
+			}
+		default:
+			faithful = false
+		}
+	})
+	if !faithful || n == 0 {
+		return 0, false
+	}
+	// nothing but allow-listed calls between a successful acquire and the return
+	for _, br := range eng.BranchesOn(val) {
+		if x := eng.ReachFromBlock(br.OnTrue, eng.PathQuery{Target: func(ins ssa.Instruction) bool {
+			ci, isCall := ins.(ssa.CallInstruction)
+			return isCall && !sp.allowedBetween(ci)
+		}}); x != nil {
+			return 0, false
+		}
+	}
+	return k, true
 }
 
 // checkPairing is the template of C05.R1: every successful acquire in fn is followed,
@@ -82,14 +190,17 @@ type pairingResult struct {
 func checkPairing(fn *ssa.Function, sp pairingSpec) []pairingResult {
 	var out []pairingResult
 	n := 0
+	_, selfWrapper := sp.wrappers[fn]
 	for _, call := range eng.Calls(fn) {
-		if !sp.isAcquire(call) {
+		recv, val, isAcq := sp.acquireSite(call)
+		if !isAcq {
 			continue
+		}
+		if selfWrapper && sp.isAcquire(call) {
+			continue // paired at the call sites of this wrapper
 		}
 		n++
 		construct := fmt.Sprintf("acquire#%d", n)
-		val := eng.ResultValue(call)
-		recv := eng.Receiver(call)
 		if val == nil || recv == nil {
 			out = append(out, pairingResult{call, construct, false, "acquire is not a plain call with a receiver (go/defer)"})
 			continue
@@ -100,7 +211,7 @@ func checkPairing(fn *ssa.Function, sp pairingSpec) []pairingResult {
 			continue
 		}
 		sameRecv := func(c ssa.CallInstruction) bool {
-			return sp.isRelease(c) && eng.Receiver(c) == recv
+			return sp.isRelease(c) && c05SameValue(eng.Receiver(c), recv)
 		}
 		isDeferRel := func(ins ssa.Instruction) bool {
 			d, ok := ins.(*ssa.Defer)
@@ -172,6 +283,55 @@ func checkPairing(fn *ssa.Function, sp pairingSpec) []pairingResult {
 	return out
 }
 
+// c05SameValue reports whether a and b denote the same value: the same SSA value, or two
+// loads of one local variable that is assigned exactly once (a variable captured by a closure
+// lives in a heap cell and every use is a separate load).
+func c05SameValue(a, b ssa.Value) bool {
+	if a == b {
+		return true
+	}
+	ua, oka := a.(*ssa.UnOp)
+	ub, okb := b.(*ssa.UnOp)
+	if !oka || !okb || ua.Op != token.MUL || ub.Op != token.MUL || ua.X != ub.X {
+		return false
+	}
+	cell, ok := ua.X.(*ssa.Alloc)
+	return ok && c05AssignedOnce(cell, 0) == 1
+}
+
+// c05AssignedOnce counts the stores into the cell addr (directly or through closures that
+// capture it); an address that escapes otherwise counts as many.
+func c05AssignedOnce(addr ssa.Value, depth int) int {
+	if addr.Referrers() == nil || depth > 4 {
+		return 99
+	}
+	n := 0
+	for _, r := range *addr.Referrers() {
+		switch u := r.(type) {
+		case *ssa.Store:
+			if u.Addr == addr {
+				n++
+			} else {
+				return 99 // the address itself is stored somewhere
+			}
+		case *ssa.UnOp, *ssa.DebugRef:
+		case *ssa.MakeClosure:
+			fn, _ := u.Fn.(*ssa.Function)
+			for i, bd := range u.Bindings {
+				if bd == addr {
+					if fn == nil || i >= len(fn.FreeVars) {
+						return 99
+					}
+					n += c05AssignedOnce(fn.FreeVars[i], depth+1)
+				}
+			}
+		default:
+			return 99
+		}
+	}
+	return n
+}
+
 // reachableOnlyThrough reports whether target is unreachable from the entry when block via is removed.
 func reachableOnlyThrough(via *ssa.BasicBlock, target ssa.Instruction) bool {
 	fn := via.Parent()
@@ -215,6 +375,27 @@ func harmlessBetween(c ssa.CallInstruction) bool {
 	return false
 }
 
+// c05PairingSpec: the acquire/release vocabulary of the request path, including the acquire
+// wrappers found outside the flow-control packages (helpers with a completely known set of
+// callers, so that every acquire made through them is paired at a visible call site).
+func c05PairingSpec(c *eng.Ctx, iface *types.Interface) pairingSpec {
+	sp := pairingSpec{
+		isAcquire:      func(ci ssa.CallInstruction) bool { return isFCCall(ci, iface, "TryAcquire") },
+		isRelease:      func(ci ssa.CallInstruction) bool { return isFCCall(ci, iface, "Release") },
+		allowedBetween: harmlessBetween,
+		wrappers:       map[*ssa.Function]int{},
+	}
+	for _, fn := range c.W.AllRepoFuncs() {
+		if inFlowControlPkgs(fn) || len(c.W.LiftSites(fn)) == 0 {
+			continue
+		}
+		if k, ok := acquireWrapperParam(fn, sp); ok {
+			sp.wrappers[fn] = k
+		}
+	}
+	return sp
+}
+
 func c05(c *eng.Ctx) {
 	iface := fcIface(c)
 	if iface == nil {
@@ -231,11 +412,7 @@ func c05(c *eng.Ctx) {
 	c05ResizeApplied(c, "R6", "MaxRequestsInflight")
 
 	// ---- R1: callers outside the flow-control packages
-	sp := pairingSpec{
-		isAcquire:      func(ci ssa.CallInstruction) bool { return isFCCall(ci, iface, "TryAcquire") },
-		isRelease:      func(ci ssa.CallInstruction) bool { return isFCCall(ci, iface, "Release") },
-		allowedBetween: harmlessBetween,
-	}
+	sp := c05PairingSpec(c, iface)
 	for _, fn := range c.W.AllRepoFuncs() {
 		if inFlowControlPkgs(fn) {
 			continue
@@ -246,7 +423,7 @@ func c05(c *eng.Ctx) {
 		// a release without an acquire in the same function, outside the flow-control packages
 		acq := false
 		for _, ci := range eng.Calls(fn) {
-			if sp.isAcquire(ci) {
+			if _, _, isAcq := sp.acquireSite(ci); isAcq {
 				acq = true
 			}
 		}
@@ -297,12 +474,15 @@ func c05(c *eng.Ctx) {
 			}
 			ok := true
 			detail := "delegate Release on every path, exactly once"
-			if x := eng.ReachFromEntry(rel, eng.PathQuery{Target: eng.IsExit, Avoid: isDelegRel}); x != nil {
+			// the delegate call may sit in a helper of Release: a call of a helper that always
+			// releases counts as the release, a call of one that may release counts as a second one
+			alwaysRel, mayRel := eng.LiftMust(isDelegRel), eng.LiftMay(isDelegRel)
+			if x := eng.ReachFromEntry(rel, eng.PathQuery{Target: eng.IsExit, Avoid: alwaysRel}); x != nil {
 				ok = false
 				detail = "a path through Release returns without releasing the delegate (slot leaks)"
 			}
 			eng.Instrs(rel, func(ins ssa.Instruction) {
-				if isDelegRel(ins) && eng.ReachAfter(ins, eng.PathQuery{Target: isDelegRel}) != nil {
+				if mayRel(ins) && eng.ReachAfter(ins, eng.PathQuery{Target: mayRel}) != nil {
 					ok = false
 					detail = "delegate released twice on a path"
 				}
@@ -319,8 +499,14 @@ func c05(c *eng.Ctx) {
 		if hasMeter {
 			try := c.W.DeclaredMethod(named, "TryAcquire")
 			if try != nil && try.Blocks != nil {
-				for _, ci := range eng.CallsTo(try, "(*"+pkgFCUtil+".Meter).StartOne") {
-					sl := c.Slicer()
+				var startCalls []ssa.CallInstruction
+				for _, f := range c.W.Region(try) {
+					if f == try || c.W.OwnedBy(f, try) {
+						startCalls = append(startCalls, eng.CallsTo(f, "(*"+pkgFCUtil+".Meter).StartOne")...)
+					}
+				}
+				for _, ci := range startCalls {
+					sl := c.Slicer().WithUp()
 					ok := eng.GuardedBy(ci, func(r eng.Rel) bool {
 						if !eng.IsBoolConst(r.Y, true) && !eng.IsBoolConst(r.Y, false) {
 							return false
@@ -338,19 +524,21 @@ func c05(c *eng.Ctx) {
 				}
 			}
 			if rel != nil && rel.Blocks != nil {
-				ends := eng.CallsTo(rel, "(*"+pkgFCUtil+".Meter).EndOne")
 				starts := 0
 				if try != nil {
-					starts = len(eng.CallsTo(try, "(*"+pkgFCUtil+".Meter).StartOne"))
+					for _, f := range c.W.Region(try) {
+						starts += len(eng.CallsTo(f, "(*"+pkgFCUtil+".Meter).StartOne"))
+					}
 				}
 				if starts > 0 {
-					isEnd := func(ins ssa.Instruction) bool { return eng.IsCall(ins, "(*"+pkgFCUtil+".Meter).EndOne") }
-					ok := len(ends) > 0 && eng.ReachFromEntry(rel, eng.PathQuery{Target: eng.IsExit, Avoid: isEnd}) == nil
-					for _, e := range ends {
-						if eng.ReachAfter(e, eng.PathQuery{Target: isEnd}) != nil {
+					isEnd0 := func(ins ssa.Instruction) bool { return eng.IsCall(ins, "(*"+pkgFCUtil+".Meter).EndOne") }
+					alwaysEnd, mayEnd := eng.LiftMust(isEnd0), eng.LiftMay(isEnd0)
+					ok := eng.ReachFromEntry(rel, eng.PathQuery{Target: eng.IsExit, Avoid: alwaysEnd}) == nil
+					eng.Instrs(rel, func(e ssa.Instruction) {
+						if mayEnd(e) && eng.ReachAfter(e, eng.PathQuery{Target: mayEnd}) != nil {
 							ok = false
 						}
-					}
+					})
 					c.Check("R1w", rel, "meter-end-once", rel.Pos(), ok, "Meter.EndOne must run exactly once on every path of Release (in-flight gauge feeds the global limiter)")
 				}
 			}
@@ -366,49 +554,63 @@ func c05(c *eng.Ctx) {
 		stores := eng.StoresToField(c.W.AllRepoFuncs(), tn, "TokenBucket")
 		for _, st := range stores {
 			fn := st.Parent()
-			ok := fn == ctor || (fn.Parent() == nil && fn.Name() == "init")
-			c.Check("R2", fn, "store flowControl.TokenBucket", st.Pos(), ok, "the in-flight bucket may be stored only by the constructor; replacing it elsewhere forgets in-flight requests")
+			// the constructor, or a helper that runs only as part of it (every call site of the
+			// helper lies in the constructor): such a store initialises a new limiter
+			ok := c.W.OwnedBy(fn, ctor) || (fn.Parent() == nil && fn.Name() == "init")
+			at := fn
+			if ok && fn != ctor && c.W.OwnedBy(fn, ctor) {
+				at = ctor // report against the anchor, wherever the constructor's body was spread
+			}
+			c.Check("R2", at, "store flowControl.TokenBucket", st.Pos(), ok, "the in-flight bucket may be stored only by the constructor; replacing it elsewhere forgets in-flight requests")
 		}
 		if len(stores) == 0 {
 			c.Fail("R2", ctor, "store flowControl.TokenBucket", 0, "no store of the bucket found")
 		}
 		if rs := c.MustMethod(pkgFC, "flowControl", "Resize"); rs != nil {
 			found := false
-			for _, ci := range eng.Calls(rs) {
-				if eng.MethodNameIs(ci, "Resize") && eng.FieldLoadOf(eng.Receiver(ci), tn, "TokenBucket") {
-					found = true
-					a := eng.Args(ci)
-					ok := len(a) == 1 && a[0] == ssa.Value(rs.Params[1])
-					c.Check("R5", rs, "bucket.Resize(n)", ci.Pos(), ok, "the bucket is resized to the requested size n (parameter), in place")
-					// guard, if any, must be  max != n
-					gs := eng.GuardsOf(ci)
-					gok := true
-					for _, g := range gs {
-						r := g.Rel()
-						isMaxVsN := (eng.FieldLoadOf(r.X, tn, "max") && r.Y == ssa.Value(rs.Params[1])) || (eng.FieldLoadOf(r.Y, tn, "max") && r.X == ssa.Value(rs.Params[1]))
-						if !(isMaxVsN && r.Op.String() == "!=") {
-							gok = false
+			// the requested size: the parameter n of Resize, also after it was handed down to a helper
+			isN := func(v ssa.Value) bool { return c.W.ResolveUp(v) == ssa.Value(rs.Params[1]) }
+			region := c.W.Region(rs)
+			for _, fn := range region {
+				for _, ci := range eng.Calls(fn) {
+					if eng.MethodNameIs(ci, "Resize") && eng.FieldLoadOf(eng.Receiver(ci), tn, "TokenBucket") {
+						found = true
+						a := eng.Args(ci)
+						ok := len(a) == 1 && isN(a[0])
+						c.Check("R5", rs, "bucket.Resize(n)", ci.Pos(), ok, "the bucket is resized to the requested size n (parameter), in place")
+						// guard, if any, must be  max != n
+						gs, complete := c.W.GuardsUp(ci.(ssa.Instruction), rs)
+						gok := complete
+						for _, g := range gs {
+							r := g.Rel()
+							isMaxVsN := (eng.FieldLoadOf(r.X, tn, "max") && isN(r.Y)) || (eng.FieldLoadOf(r.Y, tn, "max") && isN(r.X))
+							if !(isMaxVsN && r.Op.String() == "!=") {
+								gok = false
+							}
 						}
+						c.Check("R2", rs, "resize-guard", ci.Pos(), gok, "the in-place resize may be skipped only when the recorded size already equals n")
 					}
-					c.Check("R2", rs, "resize-guard", ci.Pos(), gok, "the in-place resize may be skipped only when the recorded size already equals n")
 				}
 			}
 			if !found {
 				c.Fail("R2", rs, "bucket.Resize(n)", rs.Pos(), "flowControl.Resize does not resize the embedded bucket in place")
 			}
 			// max recorded = n whenever resized
-			for _, st := range eng.StoresToField([]*ssa.Function{rs}, tn, "max") {
-				c.Check("R5", rs, "store max", st.Pos(), st.Val == ssa.Value(rs.Params[1]), "recorded size equals the requested size")
+			for _, st := range eng.StoresToField(region, tn, "max") {
+				c.Check("R5", rs, "store max", st.Pos(), isN(st.Val), "recorded size equals the requested size")
 			}
 		}
 		if ctor != nil {
-			// maxinflight.New(arg): arg derives from schema.MaxRequestsInflight.Max
-			for _, ci := range eng.CallsTo(ctor, "github.com/zoumo/golib/lock/maxinflight.New") {
-				a := eng.Args(ci)
-				ok := len(a) == 1 && c.Slicer().DerivesFrom(a[0], func(v ssa.Value) bool {
-					return eng.FieldLoadOf(v, pkgV1alpha1+".MaxRequestsInflightFlowControlSchema", "Max")
-				})
-				c.Check("R5", ctor, "maxinflight.New(schema max)", ci.Pos(), ok, "bucket size derives from schema.MaxRequestsInflight.Max")
+			// maxinflight.New(arg): arg derives from schema.MaxRequestsInflight.Max. The call may
+			// sit in a helper of the constructor; the size may reach it through the helper's parameters.
+			for _, fn := range c.W.Region(ctor) {
+				for _, ci := range eng.CallsTo(fn, "github.com/zoumo/golib/lock/maxinflight.New") {
+					a := eng.Args(ci)
+					ok := len(a) == 1 && c.Slicer().WithUp().DerivesFrom(a[0], func(v ssa.Value) bool {
+						return eng.FieldLoadOf(v, pkgV1alpha1+".MaxRequestsInflightFlowControlSchema", "Max")
+					})
+					c.Check("R5", ctor, "maxinflight.New(schema max)", ci.Pos(), ok, "bucket size derives from schema.MaxRequestsInflight.Max")
+				}
 			}
 		}
 	}
@@ -474,10 +676,26 @@ func c05(c *eng.Ctx) {
 	}
 	for _, o := range owners {
 		n := 0
+		var allowedFns []*ssa.Function
+		for _, fn := range c.W.AllRepoFuncs() {
+			if o.allowed[eng.FuncName(fn)] {
+				allowedFns = append(allowedFns, fn)
+			}
+		}
 		for _, fn := range c.W.AllRepoFuncs() {
 			for _, ci := range eng.CallsTo(fn, o.callee) {
 				n++
-				c.Check("R4", fn, "call "+shortName(o.callee), ci.Pos(), o.allowed[eng.FuncName(fn)], o.why+"; unexpected construction site")
+				// the owning function itself, or a helper that runs only as part of it
+				at := fn
+				ok := o.allowed[eng.FuncName(fn)]
+				if !ok {
+					for _, a := range allowedFns {
+						if c.W.OwnedBy(fn, a) {
+							ok, at = true, a
+						}
+					}
+				}
+				c.Check("R4", at, "call "+shortName(o.callee), ci.Pos(), ok, o.why+"; unexpected construction site")
 			}
 		}
 		if n == 0 {
@@ -696,6 +914,59 @@ func badWorkBefore(l *L) {
 	work()
 	defer l.Release()
 }
+func admit(l *L) bool {
+	if l.TryAcquire() { return true }
+	work()
+	return false
+}
+func goodWrapped(l *L) {
+	if !admit(l) { return }
+	defer l.Release()
+	work()
+}
+func admitFlag(l *L, off bool) bool {
+	if off { return false }
+	ok := l.TryAcquire()
+	if !ok { work() }
+	return ok
+}
+func goodWrappedFlag(l *L, off bool) {
+	admitted := admitFlag(l, off)
+	if !admitted { return }
+	defer l.Release()
+	work()
+}
+func badWrappedLeak(l *L, c bool) {
+	if !admit(l) { return }
+	if c { return }
+	defer l.Release()
+}
+func admitUnasked(l *L, c bool) bool {
+	if c { return true }
+	return l.TryAcquire()
+}
+func badWrappedUnasked(l *L, c bool) {
+	if !admitUnasked(l, c) { return }
+	defer l.Release()
+}
+func admitLeaky(l *L, c bool) bool {
+	if !l.TryAcquire() { return false }
+	if c { return false }
+	return true
+}
+func badWrappedLeaky(l *L, c bool) {
+	if !admitLeaky(l, c) { return }
+	defer l.Release()
+}
+func admitWork(l *L) bool {
+	if !l.TryAcquire() { return false }
+	work()
+	return true
+}
+func badWrappedWork(l *L) {
+	if !admitWork(l) { return }
+	defer l.Release()
+}
 `
 
 func c05Fixtures(c *eng.Ctx) {
@@ -711,7 +982,21 @@ func c05Fixtures(c *eng.Ctx) {
 			return eng.IsCall(ci, "fx.logf")
 		},
 	}
-	for name, want := range map[string]bool{"good": true, "goodSwitch": true, "badLeak": false, "badNoDefer": false, "badDouble": false, "badRefusedRelease": false, "badOther": false, "badWorkBefore": false, "badSkipAcquire": false} {
+	sp.wrappers = map[*ssa.Function]int{}
+	for _, m := range p.Members {
+		if f, isF := m.(*ssa.Function); isF {
+			if k, ok := acquireWrapperParam(f, sp); ok {
+				sp.wrappers[f] = k
+			}
+		}
+	}
+	wantW := map[string]bool{"admit": true, "admitFlag": true, "admitUnasked": false, "admitLeaky": false, "admitWork": false, "good": false}
+	for name, want := range wantW {
+		_, got := sp.wrappers[p.Func(name)]
+		c.Fixture("C05.pairing/wrapper-"+name, fmt.Sprint(want), fmt.Sprint(got))
+	}
+	for name, want := range map[string]bool{"good": true, "goodSwitch": true, "badLeak": false, "badNoDefer": false, "badDouble": false, "badRefusedRelease": false, "badOther": false, "badWorkBefore": false, "badSkipAcquire": false,
+		"goodWrapped": true, "goodWrappedFlag": true, "badWrappedLeak": false, "badWrappedUnasked": false, "badWrappedLeaky": false, "badWrappedWork": false} {
 		rs := checkPairing(p.Func(name), sp)
 		got := len(rs) == 1 && rs[0].ok
 		c.Fixture("C05.pairing/"+name, fmt.Sprint(want), fmt.Sprint(got))
